@@ -118,6 +118,16 @@ SUMMARY = {
     "C18-6": ("penalty-order check moved from the sanity block into the penalty loop, after `cholmod_l_start`", "a fit with penaltyOrder > splineOrder under a leak checker: workspace and penalty matrix leaked", "missed at first under C18 (caught under C09/C13); RH-2 (nothing raised while the CHOLMOD workspace is held) added"),
     "C19-6": ("per-card `error = 0` removed from `countAuxKeywords`", "file from a foreign writer with an unparsable card in front of 20+ auxiliary keys", "missed at first under C19 (FS-4 ran under C06/C16 and did not look at the reset); FS-4 extended (status reset before each card read) and run under C19"),
     "C20-6": ("move assignment implemented as member-wise swap", "assignment into a populated table, then the source inspected or reused", "caught (TS-4)"),
+    "C01-7": ("accumulator of `ndsplineeval_coreD_FixedOrder` declared `float` instead of `Float`", "`get_evaluator<double>()` on a table of constant order 2 or 3 in 1-8 dimensions", "missed at first; PR-1 (no narrowing in the double instantiations) added"),
+    "C02-7": ("bitmask entry points find 'the' differentiated dimension once with `__builtin_ffs(derivatives)-1`", "a mask with two or more bits (mixed partial)", "caught (CL-4)"),
+    "C03-7": ("left-piece nudge of `evaluator_type::ndsplineeval_deriv` made strict (`xn >` the next knot)", "derivative order >= 2 exactly at the upper extent, evaluator against table and C paths", "caught (CL-2)"),
+    "C04-7": ("`permuteDimensions` gathers the knot counts with the inverse permutation (`t_nknots[j] = nknots[i]`)", "a permutation that is not its own inverse on a table with unequal knot counts, then a lookup", "missed at first under C04 (caught under C15: CL-5); C04 now runs CL-5"),
+    "C05-7": ("`vectorCountHelper::VC` round-up simplified to `(D+1+VS)/VS`", "7-dimensional table through the evaluator's gradient", "caught (KB-3)"),
+    "C06-7": ("legacy single `ORDER` key read into a local `int`, `order[0]` never assigned before `std::fill` copies it", "legacy file with one ORDER key", "missed at first; FS-10 (orders defined before they are read) added"),
+    "C07-7": ("upper short-cut of `searchcenters` made strict (`x > knots[naxes]`)", "table whose last supported knot is repeated, lookup exactly there: centre out of range / endless bisection", "missed at first under C07 (caught under C01/C04: SC-2, SC-5); C07 now runs the SC rules"),
+    "C08-7": ("coefficients written last, after `fits_movabs_hdu(fits, 1)`, once keys, knots and extents are in place", "crash after a later HDU reached the disk and before the coefficients did (knot vector > 1080 knots)", "missed at first; ED-8 (writer goes front to back) added"),
+    "C09-7": ("`flatten_ndarray_to_sparse` accumulates the flattened index with an `int` stride", "more than 65536 coefficients (flattened index of the normal matrix beyond 2^32)", "missed at first; IW-1 (64-bit index products) added — also found D52"),
+    "C10-7": ("`T'T` factor of the other dimensions' penalty computed with stype 1 (upper triangle only)", "monotonic dimension after a smoothed one, constraint inactive", "caught (SG-6)"),
     "C20-2": ("`extents[0] = nullptr` removed from the reader", "allocation failure at the 7th request with a non-zero-filling allocator", "caught"),
 }
 try:
